@@ -10,7 +10,7 @@ package main
 // the idle ones plus the pipelining connection.
 //
 //   reset cap=<n>
-//   block <ok|fail|ctxdone|multi|multifail>
+//   block <ok|fail|ctxdone|multi|multifail|dialfail>     (...dialfail: if the call has to dial, the dial fails)
 //   stream <ok|fail|ctxdone|flip|multi|multiflip|multictxdone|badwriter>
 //   stale                 the server closes its end of every pool connection
 //   dedicated <ok|fail>   /  dedicate <ok|fail>
@@ -47,6 +47,8 @@ type fakeServer struct {
 	closes int32
 	// behaviour switches for the next commands
 	dropOn string // command name on which the server closes the connection instead of replying
+	// failDials > 0: the next dials fail (connection refused)
+	failDials int32
 }
 
 type fakeConn struct {
@@ -69,6 +71,10 @@ func (c *fakeConn) Close() error {
 func (s *fakeServer) open() int { return int(atomic.LoadInt32(&s.dials) - atomic.LoadInt32(&s.closes)) }
 
 func (s *fakeServer) dial(ctx context.Context, dst string, d *net.Dialer, _ any) (net.Conn, error) {
+	if atomic.LoadInt32(&s.failDials) > 0 {
+		atomic.AddInt32(&s.failDials, -1)
+		return nil, errors.New("verif: connection refused")
+	}
 	c1, c2 := net.Pipe()
 	fc := &fakeConn{Conn: c1, srv: s, peer: c2}
 	atomic.AddInt32(&s.dials, 1)
@@ -259,6 +265,9 @@ func (r *callersRunner) emit(line, result string) {
 		good = false
 		c.Fail("callers:leak:blocking-pool", line, fmt.Sprintf("after %q nothing is held but the blocking pool has size=%d with %d idle", line, d.Size, len(d.List)))
 	}
+	if !s.Down && s.Size != len(s.List) && strings.HasPrefix(line, "stream ") && strings.HasSuffix(line, "dialfail") {
+		c.Fail("pool:slot-leaked:failed-dial-stream", line, fmt.Sprintf("the dial of %q failed, nothing is held, but the streaming pool still counts size=%d with %d idle: the slot taken for the dial was never given back", line, s.Size, len(s.List)))
+	}
 	if !s.Down && s.Size != len(s.List) {
 		good = false
 		c.Fail("callers:leak:stream-pool", line, fmt.Sprintf("after %q nothing is held but the streaming pool has size=%d with %d idle", line, s.Size, len(s.List)))
@@ -372,13 +381,19 @@ func (r *callersRunner) do1(line string, f []string) {
 		r.srv.mu.Unlock()
 	}
 	defer setDrop("")
+	// "...dialfail": should this call have to dial, the dial fails (a call that finds an idle wire does not dial)
+	dialFail := strings.HasSuffix(mode, "dialfail")
+	if dialFail {
+		atomic.StoreInt32(&r.srv.failDials, 1)
+		defer atomic.StoreInt32(&r.srv.failDials, 0)
+	}
 	cl := r.cl
 	c.Hit(f[0] + ":" + mode)
 	switch f[0] {
 	case "block":
 		blpop := func() rueidis.Completed { return cl.B().Blpop().Key("k").Timeout(0).Build() }
 		switch mode {
-		case "ok":
+		case "ok", "dialfail":
 			r.emit(line, errClass(cl.Do(bg, blpop()).Error()))
 		case "fail":
 			setDrop("BLPOP")
@@ -419,7 +434,7 @@ func (r *callersRunner) do1(line string, f []string) {
 			return strings.Join(res, ",")
 		}
 		switch mode {
-		case "ok":
+		case "ok", "dialfail":
 			r.emit(line, drain(cl.DoStream(bg, get()), io.Discard))
 		case "fail":
 			setDrop("GET")
@@ -428,7 +443,7 @@ func (r *callersRunner) do1(line string, f []string) {
 			r.emit(line, drain(cl.DoStream(doneCtx, get()), io.Discard))
 		case "flip":
 			r.emit(line, drain(cl.DoStream(flipCtx{bg}, get()), io.Discard))
-		case "multi":
+		case "multi", "multidialfail":
 			r.emit(line, drain(cl.DoMultiStream(bg, get(), get(), get()), io.Discard))
 		case "multiflip":
 			r.emit(line, drain(cl.DoMultiStream(flipCtx{bg}, get(), get()), io.Discard))
@@ -471,6 +486,9 @@ func (r *callersRunner) do1(line string, f []string) {
 }
 
 var callersWitnesses = [][]string{
+	// failed dials on every path: the slot taken for the dial must be given back, a later call must get one
+	{"reset cap=2", "stream dialfail", "stream multidialfail", "stream dialfail", "stream ok", "stream multi", "stream dialfail", "close"},
+	{"reset cap=1", "block dialfail", "block dialfail", "block ok", "dedicated dialfail", "dedicated ok", "stream multidialfail", "stream ok", "stale", "stream dialfail", "stream dialfail", "close"},
 	// (b) the stream call sees a done context after Acquire handed out a live wire
 	{"reset cap=1", "stream ok", "stream flip", "stream ok", "stream multiflip", "stream ok", "close"},
 	{"reset cap=2", "stream flip", "stream multiflip", "stream flip", "stream ok", "close"},
@@ -495,6 +513,7 @@ func runCallers(c *Ctx) {
 		"block ok", "block ok", "block fail", "block ctxdone", "block multi", "block multifail", "block multictxdone",
 		"stream ok", "stream ok", "stream fail", "stale", "stream ctxdone", "stream flip", "stream multi", "stream multiflip", "stream multictxdone", "stream badwriter",
 		"dedicated ok", "dedicated fail", "dedicate ok", "dedicate fail",
+		"stream dialfail", "stream multidialfail", "block dialfail", "dedicated dialfail",
 	}
 	episodes := c.N / 10
 	if episodes < 5 {
